@@ -217,3 +217,80 @@ def stores_own_name(repo, ci, fi, depth=3, max_paths=4096):
                 how = None
         out.append((p, how))
     return out
+
+
+# ---------------------------------------------------------------------------
+# class-level configuration plumbing (shared by C05, C06, C07, C10)
+# ---------------------------------------------------------------------------
+
+def check_conf_plumbing(ctx, rule='conf-plumbing', option=None):
+    """the class-level ``__bisturi__`` dict reaches every field: builder -> _describe_yourself
+    / _compile (with the field's position in the full field list) -> element fields of
+    Sequence / Optional"""
+    repo = ctx.repo
+    pb = repo.cls('PacketClassBuilder')
+    m = pb.methods
+    need = ('make_configuration', 'ask_to_each_field_to_describe_itself', 'compile_fields_and_create_slots')
+    for n in need:
+        if n not in m:
+            raise Undecided('anchor PacketClassBuilder.%s not found' % n)
+    tag = ' (option %s)' % option if option else ''
+    # (i)
+    fi = m['make_configuration']
+    ok = False
+    for n in ast.walk(fi.node):
+        if isinstance(n, ast.Assign) and canon(n.targets[0]) == 'self.bisturi_conf':
+            v = n.value
+            ok = isinstance(v, ast.Call) and canon(v.func) == 'self.attrs.get' and v.args and isinstance(v.args[0], ast.Constant) and v.args[0].value == '__bisturi__'
+            st = stmt_text(n)
+    if ok:
+        ctx.holds(rule, fi, st, 'the configuration is the class\'s own __bisturi__ dict' + tag, fi.node.lineno)
+    else:
+        ctx.violation(rule, fi, 'make_configuration', 'the class-level options are not read from the class\'s __bisturi__ attribute' + tag, fi.node.lineno)
+    # (ii)
+    fi = m['ask_to_each_field_to_describe_itself']
+    calls = [n for n in ast.walk(fi.node) if isinstance(n, ast.Call) and isinstance(n.func, ast.Attribute) and n.func.attr == '_describe_yourself']
+    comps = [n for n in ast.walk(fi.node) if isinstance(n, (ast.ListComp, ast.GeneratorExp))]
+    ok = len(calls) == 1 and len(calls[0].args) == 2 and canon(calls[0].args[1]) == 'self.bisturi_conf' and comps and not comps[0].generators[0].ifs \
+        and canon(comps[0].generators[0].iter) == 'self.fields_in_class'
+    if ok:
+        tgt = comps[0].generators[0].target
+        ok = isinstance(tgt, ast.Tuple) and len(tgt.elts) == 2 and canon(calls[0].func.value) == canon(tgt.elts[1]) and canon(calls[0].args[0]) == canon(tgt.elts[0])
+    if ok:
+        ctx.holds(rule, fi, 'field._describe_yourself(name, self.bisturi_conf) for every declared field, in order', 'every field sees the class options' + tag, fi.node.lineno)
+    else:
+        ctx.violation(rule, fi, 'ask_to_each_field_to_describe_itself', 'not every declared field is described with (its name, the class configuration)' + tag, fi.node.lineno)
+    # (iii)
+    fi = m['compile_fields_and_create_slots']
+    calls = [n for n in ast.walk(fi.node) if isinstance(n, ast.Call) and isinstance(n.func, ast.Attribute) and n.func.attr == '_compile']
+    ok = len(calls) == 1
+    if ok:
+        a = calls[0].args
+        ok = len(a) == 3 and canon(a[1]) == 'self.fields' and canon(a[2]) == 'self.bisturi_conf'
+        inner = [f for f in ast.walk(fi.node) if isinstance(f, ast.FunctionDef) and f is not fi.node]
+        pos_ok = False
+        if inner and ok:
+            params = [x.arg for x in inner[0].args.args]
+            pos_ok = len(params) == 2 and canon(a[0]) == params[0]
+            src = unparse(fi.node)
+            pos_ok = pos_ok and ('map(%s, *zip(*enumerate(self.fields)))' % inner[0].name) in src
+        ok = ok and pos_ok
+    if ok:
+        ctx.holds(rule, fi, 'field._compile(position, self.fields, self.bisturi_conf) over enumerate(self.fields)', 'every field is compiled with its own position in the full field list and the class options' + tag, fi.node.lineno)
+    else:
+        ctx.violation(rule, fi, 'compile_fields_and_create_slots', 'fields are not compiled with (their position in self.fields, self.fields, the class configuration)' + tag, fi.node.lineno)
+    # (iv)
+    for cname in ('Sequence', 'Optional'):
+        ci = repo.cls(cname)
+        fi = ci.methods.get('_compile')
+        calls = [n for n in ast.walk(fi.node) if isinstance(n, ast.Call) and canon(n.func) == 'self.prototype_field._compile']
+        ok = len(calls) == 1
+        if ok:
+            kw = {k.arg: k.value for k in calls[0].keywords}
+            for nm, a in zip(('position', 'fields', 'bisturi_conf'), calls[0].args):
+                kw.setdefault(nm, a)
+            ok = 'bisturi_conf' in kw and canon(kw['bisturi_conf']) == 'bisturi_conf'
+        if ok:
+            ctx.holds(rule, fi, '%s: element field compiled with the class configuration' % cname, 'repeated / optional elements see the class options' + tag, fi.node.lineno)
+        else:
+            ctx.violation(rule, fi, '%s._compile' % cname, 'the element field is not compiled with the class configuration: class-level options are ignored inside repeated / optional fields' + tag, fi.node.lineno)
